@@ -465,6 +465,27 @@ def build_catalog():
         bad = [0, slice(0, 1)][P["aux"] % 2]
         return (lambda: x[...]), (lambda: x[bad]), None
 
+    @entry("getitem:bool_index", False)
+    def _(T, P):
+        # a python bool is an int for isinstance(); as an index it is neither the dense boolean-mask reading nor the
+        # integer reading the library would have to pick: it has to be refused (it used to return a dense tensor of the
+        # wrong shape)
+        x = _tt(T, P["N"], P["R1"], P["seed"])
+        d = len(P["N"])
+        good = [0] * d
+        bad = list(good)
+        bad[P["k"]] = [True, False][P["aux"] % 2]
+        if P["aux"] % 3 == 0 and d > 1:
+            bad[(P["k"] + 1) % d] = slice(None)
+            good[(P["k"] + 1) % d] = slice(None)
+        return (lambda: x[tuple(good)]), (lambda: x[tuple(bad)] if d > 1 or P["aux"] % 5 else x[bad[0]]), None
+
+    @entry("apply_mask:float_index_array", False)
+    def _(T, P):
+        x = _tt(T, P["N"], P["R1"], P["seed"])
+        d = len(P["N"])
+        return (lambda: x.apply_mask(np.zeros((2, d), dtype=np.int64))), (lambda: x.apply_mask(np.zeros((2, d), dtype=np.float64))), None
+
     @entry("getitem:unsupported_index_type", True)
     def _(T, P):
         x = _tt(T, P["N"], P["R1"], P["seed"])
